@@ -100,14 +100,26 @@ def run(env):
         same = (o == base) if pc["op"] == "shuffle_challenge" else any(x == y for x, y in zip(o, base))
         if same:
             env.violation("a perturbed shuffle statement keeps a challenge on %s (%s)" % (pc["ctx"], pc["tag"]), {"kind": "battery", "case": [src, pc]})
-    # many per-index challenges (no model evaluation for the big one: battery only)
+    # many per-index challenges, past the 8/16-bit counter boundaries: all pairwise distinct (battery) and the ones
+    # around the boundaries equal to the model's (the model evaluates only the selected indices)
     for fl in "BM":
         ctx = "%s:%s" % (fl, P62); P_, q_, g_ = pq(ctx)
-        n = 200 if env.quick else 1000
+        n = 66000 if env.quick else 200000
         es = [["1", "1"]] * 2
-        o = env.harness([{"ctx": ctx, "op": "shuffle_us", "args": ["4", es, es, ["4", "16"], str(n), "x:"], "tag": "many-us"}])[0]
+        c = {"ctx": ctx, "op": "shuffle_us", "args": ["4", es, es, ["4", "16"], str(n), "x:"], "tag": "many-us", "nontrivial": True}
+        o = env.harness([c])[0]
+        if not isinstance(o, list) or len(o) != n:
+            env.violation("shuffle_us(n=%d) failed on %s: %s" % (n, ctx, str(o)[:60]), {"kind": "battery", "case": c}); continue
         if len(set(o)) != n:
-            env.violation("%d per-index challenges are not pairwise distinct on %s" % (n, ctx), {"kind": "battery", "case": {"ctx": ctx, "n": n}})
+            seen = {}
+            for i, u in enumerate(o):
+                if u in seen:
+                    env.violation("per-index challenges u_%d and u_%d coincide (n=%d) on %s" % (seen[u], i, n, ctx),
+                                  {"kind": "battery", "case": c, "i": seen[u], "j": i, "u": u})
+                    break
+                seen[u] = i
+        idx = [0, 1, 255, 256, 257, 65535, 65536, 65537, n - 1]
+        items.append((c, ctx, "shuffle_us_at", ["4", es, es, ["4", "16"], [str(i) for i in idx], "x:"], [o[i] for i in idx]))
     # determinism across fresh processes: re-run a sample one case per process
     sample = [c for c in cases[:: max(1, len(cases) // 8)]] + sc[:4]
     for c in sample:
